@@ -65,7 +65,7 @@ pub fn voteresp_step(s: &mut Src, sh: &Shape, from: u64, resp_pre: bool, reject:
     let matching_kind = (role0 == StateRole::PreCandidate) == resp_pre;
     let (won, lost) = tally(sh, from, !reject);
     // C02: leadership only from Candidate, same term, by a won tally of a real-vote response
-    if r.state == StateRole::Leader {
+    if r.state == StateRole::Leader && role0 != StateRole::Leader {
         assert!(role0 == StateRole::Candidate && r.term == term0 && !resp_pre && !reject && mterm == term0, "became leader without winning a real election");
         assert!(won, "became leader without a joint majority of granted votes");
         assert!(r.vote == ME && r.leader_id == ME);
@@ -85,6 +85,13 @@ pub fn voteresp_step(s: &mut Src, sh: &Shape, from: u64, resp_pre: bool, reject:
         check_leader_msgs(&r, sh);
     } else {
         assert!(r.raft_log.last_index() == g.last());
+    }
+    if role0 == StateRole::Leader {
+        assert!(mterm <= term0 || (resp_pre && !reject), "scenario");
+        assert!(r.state == StateRole::Leader && r.term == term0 && r.msgs.is_empty(), "stray (pre)vote response disturbed a leader");
+        crate::macros::reached_end();
+        forget(r);
+        return;
     }
     if mterm < term0 {
         // stale response: ignored before reaching the handler
@@ -119,7 +126,7 @@ pub fn voteresp_step(s: &mut Src, sh: &Shape, from: u64, resp_pre: bool, reject:
     if role0 == StateRole::PreCandidate && r.term > term0 {
         assert!((won && matching_kind && mterm >= term0) || (mterm > term0 && !(resp_pre && !reject)), "pre-candidate raised its term");
     }
-    vcover!(true, "done");
+    crate::macros::reached_end();
     forget(r);
 }
 
